@@ -1141,7 +1141,7 @@ class Evaluator:
             canon = ("call", fref, (), tuple(sorted(bound.items())))
         else:
             canon = ("call", fref, tuple(args), tuple(kwargs))
-        if (self.inline_methods and bound is not None and fr.depth < self.max_depth and f.qualname not in self.opaque
+        if ((self.inline_methods or is_private_helper(f)) and bound is not None and fr.depth < self.max_depth and f.qualname not in self.opaque
                 and "abstractmethod" not in f.decorators and not _has_loop(f.node)
                 and not any(d in ("contextlib.contextmanager", "contextmanager") for d in f.decorators)):
             try:
@@ -1163,6 +1163,12 @@ class Evaluator:
             return ("call", ("cls", c.name), tuple(args), tuple(kwargs))
         bound = list(zip(names, args)) + [(k, v) for k, v in kwargs]
         return ("new", c.name, tuple(sorted(bound)))
+
+
+def is_private_helper(f: FunctionInfo) -> bool:
+    """``_name`` (single leading underscore): an implementation detail of its caller, not an interface the rules name.  Such helpers are
+    always seen through (extracting a block into a private helper does not change what the caller does)."""
+    return f.name.startswith("_") and not f.name.startswith("__") and f.kind in ("method", "staticmethod", "classmethod", "function")
 
 
 def _has_loop(node: ast.AST) -> bool:
